@@ -92,16 +92,9 @@ theorem readString_ne_panic (c : RCfg) (s : RS) : readString c s ≠ .panic := b
   repeat' split
   all_goals simp_all
 
-theorem readDecoded_ne_panic (c : RCfg) (s : RS) : readDecoded c s ≠ .panic := by
-  unfold readDecoded
-  have := readPrimTok_ne_panic s
-  repeat' split
-  all_goals simp_all
-
 theorem readPrim_ne_panic (c : RCfg) (p : Prim) (s : RS) : readPrim c p s ≠ .panic := by
   unfold readPrim
-  have h1 := readString_ne_panic c s
-  have h2 := readDecoded_ne_panic c s
+  have := readPrimTok_ne_panic s
   repeat' split
   all_goals simp_all
 
